@@ -51,6 +51,20 @@ def cases(draw, tier):
         cfg["simulation"]["agents"].append("PT")
     cfg["B0"] = crossing_pair(names)
     cfg["simulation"]["agents"].append("B0")
+    if draw(st.booleans()):
+        # a group declared by an id range that is ALSO the 'extends' parent of another group (non-inheritable keys in play)
+        n0 = cfg["A0"].pop("numAgents")
+        lo = draw(st.sampled_from([0, 3]))
+        cfg["A0"]["from"], cfg["A0"]["to"] = lo, lo + n0 - 1
+        cfg["AX"] = {"extends": "A0", "numAgents": draw(st.integers(1, 3)), "cashAmount": 5000}
+        cfg["simulation"]["agents"].append("AX")
+    if draw(st.booleans()):
+        s0 = cfg["simulation"]["sessions"][0]
+        # deprecated spellings of two session keys
+        if "maxHighFrequencyOrders" in s0:
+            s0["maxHifreqOrders"] = s0.pop("maxHighFrequencyOrders")
+        if "highFrequencySubmitRate" in s0:
+            s0["hifreqSubmitRate"] = s0.pop("highFrequencySubmitRate")
     evs = []
     kinds = draw(st.lists(st.sampled_from(["fshock", "mistake", "limit", "halt"]), max_size=3, unique=True))
     for k in kinds:
